@@ -236,6 +236,26 @@ pub fn policy_sets(tier: Tier, schema: &cedar_policy::Schema) -> Vec<(Vec<Pol>, 
         (Effect::Permit, AS::Eq(view()), E::bin(BinOp::Eq, E::bin(BinOp::Mul, E::attr(pr.clone(), "age"), E::attr(cx.clone(), "n")), E::Long(0))),
         (Effect::Permit, AS::Eq(view()), E::bin(BinOp::Contains, E::Set(vec![E::attr(rs.clone(), "owner"), E::Ent(ua())]), pr.clone())),
         (Effect::Permit, AS::Eq(view()), E::bin(BinOp::Eq, E::attr(E::Rec(vec![("f".into(), E::attr(rs.clone(), "owner")), ("g".into(), E::Long(1))]), "g"), E::Long(1))),
+        // error-capable / residual operands against constants in every short-circuit position
+        (Effect::Permit, AS::Eq(view()), E::or(E::bin(BinOp::Eq, E::attr(E::attr(rs.clone(), "owner"), "age"), E::Long(3)), E::Bool(true))),
+        (Effect::Forbid, AS::Eq(view()), E::and(E::bin(BinOp::Eq, E::attr(E::attr(rs.clone(), "owner"), "age"), E::Long(3)), E::Bool(false))),
+        (Effect::Permit, AS::Eq(view()), E::ite(E::bin(BinOp::Gt, E::attr(cx.clone(), "n"), E::Long(2)), E::bin(BinOp::Eq, E::attr(rs.clone(), "owner"), pr.clone()), E::bin(BinOp::In, pr.clone(), E::Ent(gg())))),
+        (Effect::Permit, AS::Eq(view()), E::ite(E::bin(BinOp::In, pr.clone(), E::Ent(gh())), E::Bool(true), E::bin(BinOp::Gt, E::bin(BinOp::Mul, E::attr(cx.clone(), "n"), E::Long(2)), E::Long(0)))),
+        (Effect::Permit, AS::Eq(view()), E::Is(b(E::attr(rs.clone(), "owner")), "User".into())),
+        (Effect::Permit, AS::Eq(view()), E::IsIn(b(pr.clone()), "User".into(), b(E::Ent(gh())))),
+        (Effect::Permit, AS::Eq(view()), E::Like(b(E::attr(E::attr(rs.clone(), "owner"), "nick")), vec![Pat::Char('a'), Pat::Star])),
+        (Effect::Permit, AS::Eq(view()), E::and(E::has(pr.clone(), "nick"), E::Like(b(E::attr(pr.clone(), "nick")), vec![Pat::Star, Pat::Char('l')]))),
+        (Effect::Forbid, AS::Eq(view()), E::and(E::has(rs.clone(), "ip"), E::ext("isInRange", vec![E::attr(rs.clone(), "ip"), E::ext("ip", vec![E::str("10.0.0.0/8")])]))),
+        (Effect::Permit, AS::Eq(view()), E::bin(BinOp::ContainsAny, E::attr(rs.clone(), "labels"), E::Set(vec![E::str("x"), E::str("q")]))),
+        (Effect::Permit, AS::Eq(view()), E::bin(BinOp::Contains, E::attr(rs.clone(), "labels"), E::ite(E::has(pr.clone(), "nick"), E::attr(pr.clone(), "nick"), E::str("x")))),
+        (Effect::Permit, AS::Eq(view()), E::bin(BinOp::Eq, E::Neg(b(E::attr(pr.clone(), "age"))), E::Long(-3))),
+        (Effect::Permit, AS::Eq(view()), E::bin(BinOp::Eq, E::bin(BinOp::Sub, E::attr(cx.clone(), "n"), E::attr(pr.clone(), "age")), E::Long(2))),
+        (Effect::Permit, AS::Eq(view()), E::not(E::bin(BinOp::In, E::attr(rs.clone(), "owner"), E::Ent(gg())))),
+        (Effect::Permit, AS::Eq(view()), E::and(E::has(pr.clone(), "mgr"), E::bin(BinOp::In, E::attr(pr.clone(), "mgr"), E::Set(vec![E::Ent(ub()), E::Ent(gh())])))),
+        (Effect::Permit, AS::Eq(view()), E::and(E::Has(b(pr.clone()), vec!["mgr".into(), "nick".into()]), E::bin(BinOp::Eq, E::attr(E::attr(pr.clone(), "mgr"), "nick"), E::str("al")))),
+        (Effect::Forbid, AS::Eq(view()), E::bin(BinOp::Eq, E::attr(E::attr(rs.clone(), "meta"), "pub"), E::has(cx.clone(), "flag"))),
+        (Effect::Permit, AS::Eq(view()), E::and(E::bin(BinOp::HasTag, pr.clone(), E::str("t1")), E::bin(BinOp::Eq, E::bin(BinOp::GetTag, pr.clone(), E::str("t1")), E::str("x")))),
+        (Effect::Permit, AS::Eq(edit()), E::ite(E::Is(b(rs.clone()), "Doc".into()), E::bin(BinOp::Eq, E::attr(rs.clone(), "owner"), pr.clone()), E::bin(BinOp::In, pr.clone(), rs.clone()))),
     ];
     for (eff, act, e) in extra {
         let mut p = Pol::simple(&format!("x{}", valid.len()), eff, Some(e));
